@@ -61,8 +61,26 @@ func runC18(cases []string, out *bufio.Writer, _ []string) {
 				continue
 			}
 			acc := "1"
-			if p2, _ := guard(func() { log.RegisterTag(tag) }); p2 {
+			reg := func() { log.RegisterTag(tag) }
+			switch unhex(f[1]) { // the typed helpers are the way such names get registered: same language, same registry
+			case "app":
+				reg = func() { log.RegisterAppTag(unhex(f[2]), unhex(f[3])) }
+			case "biz":
+				reg = func() { log.RegisterBizTag(unhex(f[2]), unhex(f[3])) }
+			case "rpc":
+				reg = func() { log.RegisterRPCTag(unhex(f[2]), unhex(f[3])) }
+			}
+			if p2, _ := guard(reg); p2 {
 				acc = "0"
+			}
+			if acc == "1" { // what the registry then lists must be the assembled name
+				found := false
+				for _, t := range log.GetAllTags() {
+					found = found || t == tag
+				}
+				if !found {
+					acc = "1-but-not-listed"
+				}
 			}
 			fmt.Fprintln(out, tohex(tag)+" "+acc)
 		}
